@@ -17,7 +17,8 @@ def mbr (ax : Tab α n) (conds : CondTab α n m) : Option (Tab α m) :=
     let raw : Tab α m := Vector.ofFn fun y =>
       Tab.sumIter (Vector.ofFn fun x : Fin n => ax[x] * (conds[x]).b[y])
     let sumA := Tab.sumLoop raw
-    some (raw.map fun a => a / sumA)
+    if Scalar.eq sumA Scalar.zero then none
+    else some (raw.map fun a => a / sumA)
 
 /-- `mul::projections` -/
 def projections (conds : CondTab α n m) (ay : Tab α m) : Vector (Tab α m) n :=
